@@ -120,7 +120,7 @@ vharness! {
 }
 
 vharness! {
-    /// @prop C05,C18 @tier quick @mode fast @cost 2 @funcs Execution::schedule @bounds as schedule_no_false_deadlock_t0, thread 1 was running
+    /// @prop C05,C18 @tier thorough @mode fast @cost 2 @funcs Execution::schedule @bounds as schedule_no_false_deadlock_t0, thread 1 was running
     /// no false deadlock, non-initial running thread.
     #[cfg_attr(kani, kani::unwind(8))]
     fn schedule_no_false_deadlock_t1() { no_deadlock_case(1) }
